@@ -85,8 +85,8 @@ def stage(repo, stage_dir, files, reg):
     lib = os.path.join(dst, "src", "lib.rs")
     s = open(lib).read()
     if "recursion_limit" not in s:
-        open(lib, "w").write('#![cfg_attr(kani, recursion_limit = "512")]\n' + s)
-        added.append(dict(rule="kani-recursion-limit", file="src/lib.rs", line=1, item="crate", before="", after='#![cfg_attr(kani, recursion_limit = "512")]', trusted="nothing"))
+        open(lib, "w").write('#![cfg_attr(kani, recursion_limit = "512")]\n#![cfg_attr(kani, feature(allocator_api))]\n' + s)
+        added.append(dict(rule="kani-recursion-limit", file="src/lib.rs", line=1, item="crate", before="", after='#![cfg_attr(kani, recursion_limit = "512")] #![cfg_attr(kani, feature(allocator_api))]', trusted="nothing"))
     lock = os.path.join(repo, "Cargo.lock")
     if os.path.exists(lock):
         shutil.copy(lock, os.path.join(dst, "Cargo.lock"))
